@@ -149,6 +149,34 @@ def h_rotation_map_acts_as_rotation(env, N):
         env.goal('equals_reference', b_and(arr_eq(o1.gs[0], ge), eq(o1.ps[0], pe)))
 
 
+def h_alias(env, N, how):
+    """the operators being transformed may share storage with the map that is applied (a map is itself a Pauli list):
+    m.transform_by(m) squares the map, a slice of m transformed by m gives the images of those rows and leaves m intact"""
+    M = Mods(env)
+    mg = env.bits('map', (2 * N, 2 * N))
+    mp = env.phases('map_ps', (2 * N,))
+    m = M.st.CliffordMap(mg.copy(), mp.copy())
+    want = [ref.ref_transform(mg[i], mp[i], mg, mp) for i in range(2 * N)]
+    if how == 'self':
+        res = env.run(lambda: m.transform_by(m))
+        env.goal('no_exception', b_not(res.raised))
+        if res.value is not None:
+            for i in range(2 * N):
+                env.goal('row%d' % i, b_and(arr_eq(m.gs[i], want[i][0]), eq(m.ps[i], want[i][1])))
+        return
+    lo, hi = (0, 2 * N - 1) if how == 'slice_head' else (1, 2 * N)
+    view = m[lo:hi] if how != 'row' else m[2 * N - 1]
+    res = env.run(lambda: view.transform_by(m))
+    env.goal('no_exception', b_not(res.raised))
+    if res.value is not None:
+        if how == 'row':
+            env.goal('image', b_and(arr_eq(view.g, want[2 * N - 1][0]), eq(view.p, want[2 * N - 1][1])))
+        else:
+            for k, i in enumerate(range(lo, hi)):
+                env.goal('row%d' % i, b_and(arr_eq(view.gs[k], want[i][0]), eq(view.ps[k], want[i][1])))
+        env.goal('argument_map_unchanged', b_and(arr_eq(m.gs, mg), arr_eq(m.ps, mp)))
+
+
 def jobs(tier):
     J = []
     nmax = 3 if tier == 'quick' else 4
@@ -162,6 +190,9 @@ def jobs(tier):
             if m is not None:
                 J.append(dict(harness=('c03', 'h_embed'), params=dict(N=N, mask=m)))
         J.append(dict(harness=('c03', 'h_rotation_map_acts_as_rotation'), params=dict(N=N)))
+        if N <= 3:
+            for how in ('self', 'slice_head', 'slice_tail', 'row'):
+                J.append(dict(harness=('c03', 'h_alias'), params=dict(N=N, how=how)))
     for N in (1, 2):
         J.append(dict(harness=('c03', 'h_homomorphism'), params=dict(N=N), timeout_s=300, cost=50))
     if tier == 'thorough':
